@@ -62,7 +62,10 @@ Definition c19_holds (c : c19_case) (o : V) : bool :=
     Z.eqb x y
     && match lat with
        | Some l => Z.eqb x (swaps_spec_int depth radix l t)
-       | None => true   (* unbounded latency: see C19.v, clause kept by correspondence only *)
+       | None => match swaps_ref_N depth radix t with   (* register-bag reference *)
+                 | Some v => Z.eqb x v
+                 | None => false
+                 end
        end
   | _, _ => false
   end.
@@ -87,9 +90,9 @@ Definition wf_sched (n : nat) (lens : list nat) : bool :=
 Definition c19_wf (c : c19_case) : bool :=
   match c with
   | CI fs scheds => wf_fs fs && forallb (wf_sched (length fs)) scheds
-  | CS t u depth radix lat => false
-    (* the swap-count clauses are not covered by C19_model_meets_spec (see Properties/C19.v):
-       on CS cases the oracle and the correspondence are evaluated, nothing is proved *)
+  | CS t u depth radix lat =>
+    depth_ok (depth + 2) t && same_shape t u
+    && match radix with Some r => Z.leb 2 r | None => true end
   end.
 
 Definition c19_checker : checker c19_case :=
